@@ -50,7 +50,14 @@ func genLabel(r *vlib.R) string {
 	return vlib.Pick(r, plainLabels)
 }
 
-func authTypes(extra ...uint16) []uint16 { return append([]uint16{tRRSIG, tNSEC}, extra...) }
+// authTypes: the bitmap of an authoritative owner, in wire (ascending) order.
+func authTypes(extra ...uint16) []uint16 {
+	m := map[uint16]bool{tRRSIG: true, tNSEC: true}
+	for _, t := range extra {
+		m[t] = true
+	}
+	return sortedTypes(m)
+}
 
 func dataTypes(r *vlib.R) []uint16 {
 	switch r.Intn(8) {
@@ -534,6 +541,18 @@ func genSigner(r *vlib.R, z *zone) name {
 	return z.apex
 }
 
+// signableNsec: miekg's signer (the harness signs with it) takes every owner whose
+// text starts with '*' for a wildcard and lowers the RRSIG Labels field, which is
+// wrong for a label like "**" or "*a"; sets with such owners are not signed.
+func signableNsec(set []rec) bool {
+	for _, rc := range set {
+		if len(rc.owner) > 0 && len(rc.owner[0]) > 1 && rc.owner[0][0] == '*' {
+			return false
+		}
+	}
+	return true
+}
+
 func genNsecCase(r *vlib.R, emit func(string)) int {
 	z := genZone(r)
 	emit("z new " + z.String())
@@ -580,6 +599,11 @@ func genNsecCase(r *vlib.R, emit func(string)) int {
 			emit(fmt.Sprintf("z nod %s %s %d", sg, qq, t))
 			emit(fmt.Sprintf("z agg %s %s %d %d", sg, qq, t, c))
 			cnt += 4
+			if signableNsec(set) && r.Chance(1, 3) {
+				// the same records and question through the real Resolver.authority
+				emit(fmt.Sprintf("z auth %s %s %d %s %s", sg, qq, t, vlib.Pick(r, []string{"nx", "nd"}), authVariant(r)))
+				cnt++
+			}
 			if r.Chance(1, 3) {
 				emit(fmt.Sprintf("z dlg %s %s", sg, qq))
 				cnt++
